@@ -757,3 +757,45 @@ Contract(
     note="for a well-formed bitstring: one literal per atom of the signature, in order, positive exactly where the bit is not 0; "
     "jointly they denote WofN(bitvec, signature) (lemma WofN.map)",
 )
+
+
+def _car_inv(s, j, pre):
+    d = s._st.env.get("_dc")
+    ws = _keys(pre)
+    if not isinstance(d, VDict):
+        return [j == 0, _keys(s) == ws]
+    p = z3.Int("_ca_p")
+    v = lambda k: _OI.wrap(z3.Select(d.val, k))
+    return [
+        LStr.len(d.keys) == j,
+        L.LForall([p], [LStr.at(d.keys, p)], z3.Implies(z3.And(0 <= p, p < j), LStr.at(d.keys, p) == LStr.at(ws, p)), "car.keys"),
+        L.LForall([p], [LStr.at(ws, p)], z3.Implies(z3.And(0 <= p, p < j), z3.And(LStr.at(d.keys, p) == LStr.at(ws, p), z3.Not(v(LStr.at(ws, p)).isnone), v(LStr.at(ws, p)).val.t == RKf(LStr.at(ws, p)))), "car.vals"),
+        _keys(s) == ws,
+    ]
+
+
+def _car_post(c, r):
+    ks = _keys(c.old)
+    w = z3.Const("_cap_w", StrSort)
+    v = _OI.wrap(z3.Select(r.val, w))
+    p = z3.Int("_cap_p")
+    return [
+        LStr.len(r.keys) == LStr.len(ks),
+        Forall([p], [LStr.at(r.keys, p)], z3.Implies(z3.And(0 <= p, p < LStr.len(ks)), LStr.at(r.keys, p) == LStr.at(ks, p)), "compute_all_ranks.keys"),
+        Forall([p], [LStr.at(ks, p)], z3.Implies(z3.And(0 <= p, p < LStr.len(ks)), z3.And(z3.Not(_OI.wrap(z3.Select(r.val, LStr.at(ks, p))).isnone), _OI.wrap(z3.Select(r.val, LStr.at(ks, p))).val.t == RKf(LStr.at(ks, p)))), "compute_all_ranks.ranks"),
+    ]
+
+
+Contract(
+    "inference.preocf:PreOCF.compute_all_ranks",
+    params={"self": OCF},
+    returns=RanksT,
+    locals={"_dc": RanksT},
+    ensures=_car_post,
+    raises={"ValueError": lambda c: z3.BoolVal(True)},
+    modifies=["self.ranks"],
+    loops={0: LoopSpec("{... for w in self.ranks.keys()}", _car_inv)},
+    properties=["C16", "C18"],
+    fuel=7,
+    note="every world of the ranking, in order, with its rank (rank_world of the concrete class)",
+)
